@@ -132,6 +132,31 @@ def read_arrays(src, arrays):
                     break
             if cur is None:
                 continue
+        if arrays[cur][1] == "optrow":
+            # one struct per line: { "name", { TYPE, &parser, &getter } },
+            if re.match(r"\s*\}\s*;", line):
+                if len(stack) != depth0:
+                    probs.append("array closed inside a conditional")
+                out[cur] = (rows, not probs, probs)
+                cur = None
+                continue
+            if not line.strip():
+                continue
+            m = re.fullmatch(r'\s*\{\s*"((?:\\.|[^"\\])*)"\s*,\s*\{\s*(\w+)\s*,\s*&?\s*(\w+)\s*,\s*&?\s*(\w+)\s*\}\s*\}\s*,?\s*', line)
+            if m and NAME_OK.match(m.group(1)):
+                item = (m.group(1), m.group(2), m.group(3), m.group(4))
+            else:
+                probs.append("row not recognised: %s" % line.strip()[:80])
+                item = ("?", "?", "?", "?")
+            guards = []
+            for fr in stack:
+                if fr is None:
+                    if "row under an unrecognised conditional" not in probs:
+                        probs.append("row under an unrecognised conditional")
+                else:
+                    guards += fr
+            rows.append((guards, item))
+            continue
         # inside an array: items separated by commas, closed by }
         closed = False
         if "}" in line:
@@ -298,6 +323,73 @@ def configure_switches(run):
     return feats, generic, hin, notes
 
 
+# ------------------------------------------------------------------------------------ EXTENSION: option registry of configfile.c
+def tr_options(run, notes):
+    path = "src/configfile.c"
+    src = strip_comments(run.src(path))
+    res, defined_here = read_arrays(src, {"opts": (r"\bsnoopy_configfile_option_t\s+snoopy_configfile_optionRegistry\s*\[\s*\]\s*=\s*\{", "optrow")})
+    rows, ok, probs = res["opts"]
+    for p in probs:
+        notes.append("translator: %s optionRegistry: %s" % (path, p))
+    # guards of the rows are macros derived in snoopy.h from the configure switches:  #ifdef SNOOPY_CONF_X / #define SNOOPY_X 1 / #endif
+    sn = strip_comments(run.src("src/snoopy.h"))
+    derived = {}
+    for m in re.finditer(r"^[ \t]*#\s*ifdef\s+(\w+)\s*\n[ \t]*#\s*define\s+(\w+)\s+1\s*\n[ \t]*#\s*endif", sn, re.M):
+        derived[m.group(2)] = m.group(1)
+    rows2 = []
+    for gs, it in rows:
+        g2 = []
+        for g in gs:
+            if g in derived and len(re.findall(r"#\s*(?:define|undef)\s+%s\b" % re.escape(g), sn)) == 1 and g not in defined_here:
+                g2.append(derived[g])
+            elif g.startswith("SNOOPY_CONF_"):
+                g2.append(g)
+            else:
+                ok = False
+                notes.append("translator: optionRegistry guard %s: not a configure switch and not derived from one in snoopy.h" % g)
+                g2.append(g)
+        rows2.append((g2, it))
+    # lookup shapes
+    lk = True
+    R = "snoopy_configfile_optionRegistry"
+    S = r'"((?:\\.|[^"\\])*)"'
+    loop = r"for\(inti=0;(?:0!=strcmp\(%s\[i\]\.name,%s\)|strcmp\(%s\[i\]\.name,%s\)!=0);i\+\+\)\{if\((?:strcmp\(%s\[i\]\.name,optionName\)==0|0==strcmp\(%s\[i\]\.name,optionName\))\)\{return%%s;\}\}return%%s;" % (R, S, R, S, R, R)
+    sents = []
+    b = squeeze(def_body(src, R + "_getIdFromName"))
+    m = re.fullmatch(loop % ("i", "(?:SNOOPY_CONFIGFILE_OPTION_NOT_SUPPORTED|-1)"), b)
+    if m:
+        sents.append([x for x in m.groups() if x is not None][0])
+    else:
+        lk = False
+        notes.append("translator: %s_getIdFromName: shape not recognised" % R)
+    m = re.search(r"[\w\*\s\(\)\"]*?\b%s_getOptionValueAsString\s*\([^;{}]*\)\s*\{" % R, src)
+    b = squeeze(func_body(src[m.start():], R + "_getOptionValueAsString")) if m else ""
+    m = re.fullmatch(loop % (r"%s\[i\]\.data\.getValueAsStringPtr\(\)" % R, "NULL"), b)
+    if m:
+        sents.append([x for x in m.groups() if x is not None][0])
+    else:
+        lk = False
+        notes.append("translator: %s_getOptionValueAsString: shape not recognised" % R)
+    b = squeeze(def_body(src, "snoopy_configfile_iniParser_callback"))
+    if not re.search(r"intoptionId=%s_getIdFromName\(name\);if\(optionId!=SNOOPY_CONFIGFILE_OPTION_NOT_SUPPORTED\)\{return%s\[optionId\]\.data\.valueParserPtr\(confValString,CFG\);\}" % (R, R), b):
+        lk = False
+        notes.append("translator: snoopy_configfile_iniParser_callback: dispatch through the option registry not recognised")
+    if not re.search(r"#\s*define\s+SNOOPY_CONFIGFILE_OPTION_NOT_SUPPORTED\s+-1\b", src):
+        lk = False
+        notes.append("translator: SNOOPY_CONFIGFILE_OPTION_NOT_SUPPORTED is not -1")
+    sentinel = sents[0] if len(sents) == 2 and sents[0] == sents[1] and NAME_OK.match(sents[0]) else None
+    if sentinel is None:
+        lk = False
+        notes.append("translator: optionRegistry: sentinel literal not recognised")
+    return {"rows": rows2, "lex_ok": bool(ok), "lookup_ok": lk, "sentinel": sentinel, "derived": derived}
+
+
+def coq_optrows(rows, indent="     "):
+    if not rows:
+        return "[]"
+    return "[\n" + ";\n".join("%s(%s, (%s, (%s, %s)))" % (indent, coq_list(coq_str(g) for g in gs), coq_str(it[0]), coq_str(it[2]), coq_str(it[3])) for gs, it in rows) + " ]"
+
+
 # ------------------------------------------------------------------------------------ main entry
 def tr_registry(run):
     """Returns the dict also written to consts_registry.json."""
@@ -330,22 +422,26 @@ def tr_registry(run):
         notes.append("translator: " + p)
     feats, generic, hin, n2 = configure_switches(run)
     notes += n2
+    opts = tr_options(run, notes)
     run.notes += notes
 
     def reg_term(r):
         return ("{| r_kind := %s;\n   r_names := %s;\n   r_ptrs := %s;\n   r_lex_ok := %s |}"
                 % (r["coqkind"], coq_rows(r["names"]), coq_rows(r["ptrs"]), "true" if r["lex_ok"] else "false"))
     text = ("(* GENERATED from the current working tree by vlib/tr_registry.py -- do not edit *)\n"
-            "From Coq Require Import String List.\nFrom Snoopy Require Import Registry.Model.\nImport ListNotations.\nLocal Open Scope string_scope.\n\n"
+            "From Coq Require Import String List.\nFrom Snoopy Require Import Registry.Model Registry.Options.\nImport ListNotations.\nLocal Open Scope string_scope.\n\n"
             + "".join("Definition %s : registry :=\n  %s.\n\n" % (k, reg_term(regs[k])) for k, _, _ in KINDS)
             + "Definition consts : registry_consts :=\n  {| rc_sentinel := %s;\n     rc_lookup_ok := %s;\n     rc_ds := ds; rc_flt := flt; rc_out := out;\n"
               "     rc_configure_features := %s;\n     rc_configure_generic := %s;\n     rc_confighin := %s |}.\n"
             % (coq_str(sentinel if sentinel is not None else ""), "true" if lookup_ok else "false",   # unrecognised: lookup_ok is false, "" keeps the model runnable
                coq_list(coq_str(g) for g in feats), coq_list(coq_str(g) for g in generic), coq_list(coq_str(g) for g in hin)))
+    text += ("\n(* EXTENSION: option registry of src/configfile.c (guards rewritten to the configure switch they are derived from in snoopy.h) *)\n"
+             "Definition options : opt_registry :=\n  {| o_rows := %s;\n     o_sentinel := %s;\n     o_lex_ok := %s;\n     o_lookup_ok := %s |}.\n"
+             % (coq_optrows(opts["rows"]), coq_str(opts["sentinel"] or ""), "true" if opts["lex_ok"] else "false", "true" if opts["lookup_ok"] else "false"))
     run.write_gen("Gen_Registry.v", text)
     js = {"sentinel": sentinel, "lookup_ok": lookup_ok, "configure_features": feats, "configure_generic": generic, "confighin": hin,
           "registries": {k: {"kind": regs[k]["kind"], "names": regs[k]["names"], "ptrs": regs[k]["ptrs"], "lex_ok": regs[k]["lex_ok"]} for k in regs},
-          "notes": notes}
+          "options": opts, "notes": notes}
     json.dump(js, open(os.path.join(run.scratch, "consts_registry.json"), "w"), indent=1)
     return js
 
